@@ -4,3 +4,4 @@ import EdzedProofs.DataLemmas
 import EdzedProofs.ErrorReg
 import EdzedProofs.Filters
 import EdzedProofs.Simulate
+import EdzedProofs.Validate
